@@ -1,9 +1,11 @@
 """C02 -- a line is a frame iff its hex digits form a 56/112-bit frame of matching DF."""
 from sqgen import *
 import pyspec
+import sqcmp
 
 ID = "C02"
 TARGETS = ["Properties/C02.vo"]
+NEED_CLI = True
 FIELDS = ["key"]
 EXPLANATION = ("theorems: get_message accepts iff payload (14|28, 26|40-12 digits) /\\ DF/length agreement /\\ parity; result depends "
                "only on the digit sequence; rejected lines are the identity on the state. Correspondence: every digit count 0..64, "
@@ -94,6 +96,20 @@ def gen(seed, tier):
         if i % 2:
             o["U"] = 1
         cases.append(H("C02-k%d" % i, o, [seg(0, good), seg(r.choice([2500, 3000, 10000]), bad)]))
+    # decoration far beyond any line-length guess, through the READER (file source): blanks, NULs, tabs around / inside a frame
+    for i in range(6 if tier == "quick" else 40):
+        f1, f2 = g.f_df17(), g.f_df17()
+        pad = r.choice([b" ", b"\x00", b"\t", b"-", b"z"])
+        n1 = r.choice([1000, 1025, 1500, 4096, 70000])
+        l1 = pad * n1 + f1.encode()
+        l2 = f2[:10].encode() + pad * r.choice([1100, 5000]) + f2[10:].encode() + pad * 30
+        cases.append(H("C02-xpad-%d" % i, {}, [blob(0, l1 + b"\r\n" + l2 + b"\n"), seg(0, [g.f_df17()])]))
+    # TCP source: a line whose bytes arrive in two parts 1.5 s apart is the same line (event type 9 of the scripted peer)
+    for i in range(1 if tier == "quick" else 3):
+        fa, fb, fc = g.f_df17(), g.f_df17(), g.f_df17()
+        cut = r.randint(3, 25)
+        body = (fa[:cut] + "|" + fa[cut:] + "\n" + fb + "\n").encode()
+        cases.append(("C02-tcp%d" % i, "T", opts_str({"i": "x", "u": -1, "o": "x"}), ";".join([blob(9, body), seg(0, [fc])])))
     # context independence: whether a line is a frame depends on its own digits only, whatever kind of line
     # (skipped at whichever stage of the reader loop) came immediately before it in the same file
     def contexts():
@@ -126,6 +142,24 @@ def nibbles_of(line: bytes):
 
 
 def oracle(parts, outcome, obs):
+    if parts[1] == "T":
+        if outcome == "harness-error":
+            return None
+        if outcome != "ok":
+            return "outcome %s (%s)" % (outcome, obs)
+        d = dict(kv.split("=", 1) for kv in obs.split(";"))
+        want = set()
+        for s in parts[3].split(";"):
+            t, rest = s.split(":", 1)
+            data = bytes.fromhex(rest[1:]).replace(b"|", b"") if rest.startswith("!") else b"".join(bytes.fromhex(l) + b"\n" for l in rest.split(",") if l and l != ".")
+            for ln in pyspec.file_lines(data):
+                fr = pyspec.frame_of_line(ln)
+                if fr and fr != "zero":
+                    want.add("%06X" % fr[1])
+        got = set(k for k in d["keys"].split(",") if k)
+        if got != want:
+            return "TCP session: table %s, the lines that are frames have addresses %s" % (sorted(got), sorted(want))
+        return None
     if outcome.replace("+slow", "") != "ok":
         return "outcome %s" % outcome
     if parts[1] == "G":
@@ -177,3 +211,10 @@ CLAIM = {
     "note": "Lines that are not valid UTF-8 are 'not text' and fall under C13. char::to_digit is modelled on bytes.",
     "technique": "Coq proof (iff characterisation through CRC = long division, RangeSpec) + differential runs with independent oracle",
 }
+
+
+def compare(parts, impl, model):
+    if parts[1] != "T":
+        return sqcmp.compare_case(parts[1], impl, model, FIELDS)
+    import props.C18 as c18
+    return c18.compare(parts, impl, model)
